@@ -380,7 +380,6 @@ class CacheWorld:
             args, kwargs = self.call_args(C)
             sch.log('call', C.ti, C.ci, C.key)
             if spec.get('timeout') is not None:
-                C.cancel_requested = True       # a time-out is a cancellation the harness asked for
                 v = await asyncio.wait_for(self.cached(*args, **kwargs), spec['timeout'])
             else:
                 v = await self.cached(*args, **kwargs)
@@ -615,6 +614,8 @@ class CacheWorld:
             if kind in ('cancelled', 'timeout'):
                 if C.cancel_requested or C.own_shutdown:
                     continue
+                if kind == 'timeout' and C.spec.get('timeout') is not None:
+                    continue            # the time-out the harness itself put on this very call
                 self.viol('C06', 'cache.foreign_cancel',
                           'caller cancelled although nobody cancelled it and its loop was not shut down',
                           f'caller {C.ti}.{C.ci} key {C.key} got {kind} at step {C.step_done} t={C.t_done}')
